@@ -23,6 +23,7 @@ fn main() {
     let code = match cmd.as_str() {
         "algo" => streams::stream_algo(&opt),
         "shape" => streams::stream_shape(&opt),
+        "hist" => streams::stream_hist(&opt),
         "oracle" => oracle::run(&opt),
         _ => { eprintln!("unknown command {}", cmd); 2 }
     };
